@@ -8,8 +8,8 @@ mkdir -p /home/pbtest /tmp/pbtest 2>/dev/null || true
 if [ "$(id -u)" = 0 ] && id -u pbtest >/dev/null 2>&1; then
   chown -R pbtest /repo/_build /home/pbtest /tmp/pbtest 2>/dev/null || true
   chown pbtest /repo /repo/test 2>/dev/null || true
-  exec flock /var/tmp/uv-suite.lock setpriv --reuid=pbtest --regid=pbtest --init-groups env HOME=/home/pbtest TMPDIR=/tmp/pbtest \
+  exec flock -o /var/tmp/uv-suite.lock setpriv --reuid=pbtest --regid=pbtest --init-groups env HOME=/home/pbtest TMPDIR=/tmp/pbtest \
     ctest --test-dir /repo/_build -j1 --timeout 900 --output-on-failure "$@"
 else
-  exec flock /var/tmp/uv-suite.lock ctest --test-dir /repo/_build -j1 --timeout 900 --output-on-failure "$@"
+  exec flock -o /var/tmp/uv-suite.lock ctest --test-dir /repo/_build -j1 --timeout 900 --output-on-failure "$@"
 fi
